@@ -212,6 +212,12 @@ def run_fire(job):
     steps = []
 
     tags = sorted(cfg['nodes'])
+    epoch_s = int(epoch.timestamp())
+
+    def served_of(node, n):
+        '''node attribute 'served' (event index -> POSIX second of the occurrence it fired for), as instants'''
+        sv = node.get('served') or {}
+        return [int(sv[i]) - epoch_s if i in sv else -1 for i in range(n)]
 
     def snap():
         nodes = w.nodes()
@@ -232,6 +238,7 @@ def run_fire(job):
             'nque': {tag: sum(1 for j in schedule.que if j is nodes[tag]) for tag in tags},
             'todo': {tag: sorted(nodes[tag].get('todo')) for tag in tags},
             'exec': {tag: sorted(ex[tag]) for tag in tags},
+            'served': {tag: served_of(nodes[tag], len(cfg['nodes'][tag]['events'])) for tag in tags},
         }
 
     def log(ev, dt=0, t='', n=''):
